@@ -26,6 +26,8 @@ func ctxWalk(t *Term, inh string, ro bool, m map[int]string) {
 			own = "safe"
 		case t.K == "obj" && hasCap(t, "SV") && !ro:
 			own = "safe"
+		case t.K == "sstr" && !ro:
+			own = "safe"
 		}
 	}
 	m[t.ID] = own
@@ -100,7 +102,7 @@ func (c *Ctx) ExpectVisible(out []int, rt []RtEntry, ts []*Term) []byte {
 			id := x - PTok
 			t := terms[id]
 			role := "ret"
-			if t != nil && t.K == "string" {
+			if t != nil && (t.K == "string" || t.K == "sstr") {
 				role = "val"
 			}
 			if DeclClass(t, role, cm[id]) == 'S' {
@@ -158,6 +160,8 @@ func pubWalk(t *Term, inh string, ro bool, pub map[int]bool) {
 			own = "safe"
 		case t.K == "obj" && hasCap(t, "SV") && !ro:
 			own = "safe"
+		case t.K == "sstr" && !ro:
+			own = "safe"
 		}
 	}
 	mark := func(ids []int, public bool) {
@@ -172,8 +176,10 @@ func pubWalk(t *Term, inh string, ro bool, pub map[int]bool) {
 	switch t.K {
 	case "int", "uint", "float", "bool":
 		pub[-t.ID] = own == "safe" // leaf VALUES are keyed by the negated term id
-	case "string":
+	case "string", "sstr":
 		mark(tokIDs(t.B), own == "safe")
+	case "complex":
+		pub[-t.ID] = own == "safe"
 	case "rstring", "rbytes":
 		mark(tokIDs(t.B), own != "unsafe")
 	case "obj":
